@@ -110,11 +110,13 @@ def terminalOut (runOps : List Iter.IterOp → List Out) (pre : List Iter.IterOp
   | (vs, none) =>
     if c == '#' then s!"V:{vs.length}"
     else if c == '$' then (match vs.getLast? with | some v => s!"S:{v}" | none => "N")
+    else if c == 'm' then (match vs with | [] => "N" | v :: rest => s!"S:{rest.foldl min v}")
+    else if c == 'M' || c == 'r' then (match vs with | [] => "N" | v :: rest => s!"S:{rest.foldl max v}")
     else listS vs
 
 /-- split a history at its first terminal letter -/
 def splitTerminal (cs : List Char) : List Char × Option Char :=
-  match cs.span (fun c => !("#$%^".toList.contains c)) with
+  match cs.span (fun c => !("#$%^mMer".toList.contains c)) with
   | (pre, c :: _) => (pre, some c)
   | (pre, []) => (pre, none)
 
@@ -134,11 +136,13 @@ def fwdHist (getO : Nat → M (Option Nat)) (abs : List Nat) (hist : String) : S
     | [], _, _, ms, ss => (ms.reverse, ss.reverse)
     | c :: cs, i, rem, ms, ss =>
       if c == 'h' then go cs i rem (s!"V:{rem.length}" :: ms) (s!"V:{rem.length}" :: ss)
-      else if "#$%".toList.contains c then
+      else if "#$%mMer".toList.contains c then
         -- terminal consuming call (provided method: repeated `next`)
         let m := terminalOut (fun o => (Iter.fwdRun getO abs.length i (o.map (fun _ => Iter.FwdOp.next)))) [] c (rem.length + 2)
         let sp := if c == '#' then s!"V:{rem.length}"
           else if c == '$' then (match rem.getLast? with | some v => s!"S:{v}" | none => "N")
+          else if c == 'm' then (match rem with | [] => "N" | v :: rest => s!"S:{rest.foldl min v}")
+          else if c == 'M' || c == 'r' then (match rem with | [] => "N" | v :: rest => s!"S:{rest.foldl max v}")
           else listS rem
         ((m :: ms).reverse, (sp :: ss).reverse)
       else
@@ -469,6 +473,12 @@ def handleQ (st : St) (k : Nat) (q : String) (args : List String) : String :=
     | "zeros" => listS (BV.PosIter.collect false b (n + 1) BV.PosIter.new) ++ "|" ++ listS (onesPos false 0)
     | "ones_with_pos" => listS (BV.PosIter.collect true b (n + 1) (BV.PosIter.withPos true b (a 0))) ++ "|" ++ listS (onesPos true (a 0))
     | "zeros_with_pos" => listS (BV.PosIter.collect false b (n + 1) (BV.PosIter.withPos false b (a 0))) ++ "|" ++ listS (onesPos false (a 0))
+    | "ones_hist" =>
+      let ps := BV.PosIter.collect true b (n + 1) (BV.PosIter.withPos true b (a 0))
+      fwdHist (fun i => .ok ps[i]?) (onesPos true (a 0)) (args.getD 1 "")
+    | "zeros_hist" =>
+      let ps := BV.PosIter.collect false b (n + 1) (BV.PosIter.withPos false b (a 0))
+      fwdHist (fun i => .ok ps[i]?) (onesPos false (a 0)) (args.getD 1 "")
     | "ones_after" => posAfter true b (n + 2) (BV.PosIter.withPos true b (a 0))
     | "zeros_after" => posAfter false b (n + 2) (BV.PosIter.withPos false b (a 0))
     | _ => "bad-op"
@@ -523,6 +533,12 @@ def handleQ (st : St) (k : Nat) (q : String) (args : List String) : String :=
     | "zeros" => listS (BV.PosIter.collect false d.bv (n + 1) BV.PosIter.new) ++ "|" ++ listS ((List.range n).filter (fun i => !abs.getD i false))
     | "ones_with_pos" => listS (BV.PosIter.collect true d.bv (n + 1) (BV.PosIter.withPos true d.bv (a 0))) ++ "|" ++ listS ((List.range n).filter (fun i => i ≥ a 0 ∧ abs.getD i false))
     | "zeros_with_pos" => listS (BV.PosIter.collect false d.bv (n + 1) (BV.PosIter.withPos false d.bv (a 0))) ++ "|" ++ listS ((List.range n).filter (fun i => i ≥ a 0 ∧ !abs.getD i false))
+    | "ones_hist" =>
+      let ps := BV.PosIter.collect true d.bv (n + 1) (BV.PosIter.withPos true d.bv (a 0))
+      fwdHist (fun i => .ok ps[i]?) ((List.range n).filter (fun i => i ≥ a 0 ∧ abs.getD i false)) (args.getD 1 "")
+    | "zeros_hist" =>
+      let ps := BV.PosIter.collect false d.bv (n + 1) (BV.PosIter.withPos false d.bv (a 0))
+      fwdHist (fun i => .ok ps[i]?) ((List.range n).filter (fun i => i ≥ a 0 ∧ !abs.getD i false)) (args.getD 1 "")
     | "ones_after" => posAfter true d.bv (n + 2) (BV.PosIter.withPos true d.bv (a 0))
     | "zeros_after" => posAfter false d.bv (n + 2) (BV.PosIter.withPos false d.bv (a 0))
     | _ => "bad-op"
@@ -781,6 +797,11 @@ def step (st : St) (line : String) : St × String :=
   | "case" :: _ => ({ st with slots := Array.replicate 16 .empty }, "ok")
   | "tie" :: _ => (st, "ok")
   | "threads" :: _ => (st, "ok")
+  | ["cf", d, src] =>       -- `dst.clone_from(&src)`: the destination becomes a copy of the source
+    (match getSlot st (nat! d), getSlot st (nat! src) with
+     | .empty, _ => (st, "bad-op")
+     | _, .empty => (st, "bad-op")
+     | _, sv => if nat! d == nat! src then (st, "bad-op") else (setSlot st (nat! d) sv, "ok"))
   | ["eq", a, b] => (st, slotEq (getSlot st (nat! a)) (getSlot st (nat! b)))
   | "mk" :: k :: kind :: args => handleMk st (nat! k) kind args
   | "op" :: k :: op :: args => handleOp st (nat! k) op args
